@@ -108,8 +108,33 @@ class Termination:
                     if callee.fq not in cyc:
                         continue
                     ok, msg = self._judge_recursive_call(f, callee, node, kind)
+                    if not ok:
+                        why = self._handed_on(f, callee, node, cyc, fq)
+                        if why:
+                            ok, msg = True, why
                     out.append((f, node, callee, ok, msg))
         return out
+
+    def _handed_on(self, f: FuncInfo, callee: FuncInfo, node: ast.AST, cyc: Set[str], fq: Dict[str, FuncInfo]) -> Optional[str]:
+        """A call inside a cycle that hands the caller's own parameter on unchanged (`f(v) -> g(v)`) does not descend itself; it is
+        harmless when g, whenever it calls back into the cycle, does so on a strict part of that very parameter (`for x in v: f(x)`):
+        every round through the cycle then works on a structurally smaller value."""
+        if callee is f or not isinstance(node, ast.Call):
+            return None
+        fparams = [a.arg for a in f.params()]
+        b = self.prog.bind_call(f.module, node, callee)
+        handed = {q for q, arg in b.items() if isinstance(arg, ast.Name) and arg.id in fparams and arg.id not in self.cg.env(f)._assign_sites}
+        if not handed:
+            return None
+        back = [(c2, n2, k2) for c2, n2, k2 in self.precise_edges(callee) if c2.fq in cyc]
+        if not back:
+            return None
+        for c2, n2, k2 in back:
+            exprs = list(n2.args) + [k.value for k in n2.keywords] if isinstance(n2, ast.Call) else []
+            if not any(r[0] == 'param' and r[1] in handed and r[2] for e in exprs for r in self.mut.roots(callee, e)):
+                return None
+        return (f'`{", ".join(sorted(handed))}` is handed on to {callee.qualname} unchanged, which calls back into the cycle only on strict parts of it: '
+                f'every round works on a structurally smaller value')
 
     def _judge_recursive_call(self, f: FuncInfo, callee: FuncInfo, node: ast.AST, kind: str) -> Tuple[bool, str]:
         # receiver / arguments that are strict parts of the caller's parameters or of self
